@@ -323,10 +323,16 @@ func (c ColLowCardinality[T]) Rows() int {
 func (c *ColLowCardinality[T]) Prepare() error {
 	// Allocate keys slice.
 	c.keys = append(c.keys[:0], make([]int, len(c.Values))...)
+	// Rebuild the dictionary from Values on every call: keys are assigned from
+	// zero below, so neither the value map nor the index may survive from a
+	// previous Prepare or DecodeColumn.
 	if c.kv == nil {
 		c.kv = map[T]int{}
-		c.index.Reset()
 	}
+	for k := range c.kv {
+		delete(c.kv, k)
+	}
+	c.index.Reset()
 
 	// Fill keys with value indexes.
 	var last int
